@@ -84,3 +84,11 @@ package timeout
 //@   requires c != nil
 //@   ensures [C16.timeout.listener_registered+C07.builder.listener] c.onTimeoutExceeded == listener && c.timeLimit == old(c.timeLimit) && result == asiface(c)
 //@   modifies c.onTimeoutExceeded
+
+// With is Builder(timeLimit).Build()
+//@ func With
+//@   builder
+//@   dyntype TimeoutBuilder *config only
+//@   let tc := asref(result, *timeout).config
+//@   ensures [C07.with] result != nil && typeis(result, *timeout) && tc != nil && tc.timeLimit == timeLimit && tc.onTimeoutExceeded == nil
+//@   modifies nothing
